@@ -58,11 +58,20 @@ CFG = {
             "slivers) with the metamorphic oracle 'same triangle set as unscaled'; distinct by (points, scale, offset, spare capacity); "
             "the slice handed to BowyerWatson is a window with spare capacity 0/1/2/3/4/16 and is read back after the "
             "call, and the mesh returned by the previous call is read again after the next call; inputs of at most 24 points carry "
-            "the harness' exact decision of strong general position, re-decided by gp_strongb; non-trivial = at least 4 points",
+            "the harness' exact decision of strong general position, re-decided by gp_strongb; (vii) 1/16 near-degenerate "
+            "inputs with integer coordinates: a point 1-3 units off the line through an edge of length 2^20..2^44 (hull or "
+            "interior) followed by points across it, or two points 1-4 units apart in a set of extent 2^28..2^38 (relative "
+            "offsets 1e-6..3e-14), admitted by the big-integer faithful run; (viii) a size ladder of about 1100, 2100 and "
+            "4200 points (jittered lattice in scan order / uniform cloud; thorough: eight rungs, plus one 258-272-point "
+            "input through the certified checker) whose triangles are JUDGED BY THE HARNESS' EXACT INTEGER ORACLE, not by "
+            "Coq (all triangle/point pairs, winding, directed-edge and vertex-set uniqueness, equality with an exact "
+            "replay of the algorithm; Coq sees their vertex identity only); non-trivial = at least 4 points",
     "trusted": ["float64 arithmetic of the implementation is exact on the generated inputs by construction (bound "
                 "12*D^4 < 2^53 checked per case by the harness: exactOK) or, for the sliver class, sign-faithful with a "
                 "2^-40 margin on every predicate the run evaluates (exact big-integer shadow run in the harness: faithful); "
                 "coordinates reach Coq as integers in grid units",
+                "size-ladder rungs (1100-4200 points) are judged by the Go oracle in exact int64 arithmetic and admitted by a "
+                "replay whose float64 predicates must be robust (2^-40 relative margin); the certified checker is not run on them",
                 "known-finding classification (every missing true-Delaunay triangle has a super-triangle vertex inside "
                 "or on its circumcircle; output otherwise a duplicate-free, consistently wound subset of the brute-force "
                 "Delaunay triangulation) is computed by the harness in exact integer arithmetic; such an input is written "
